@@ -78,6 +78,7 @@ void gen_c18(Plan &p, Rng &r, bool thorough) {
   // now and then every caller does the same rare thing (chunk fitting in front of the longest instructions, gaps
   // above 11 bytes): whatever the library sets up on first use of a path is then set up while others are on it
   const bool all_fit_long = r.chance(1, 8);
+  const bool shared_file = r.chance(1, 5);
   std::vector<std::string> longs;
   if (all_fit_long)
     for (int len = 12; len <= 15; len++)
@@ -143,7 +144,15 @@ void gen_c18(Plan &p, Rng &r, bool thorough) {
         f.path = "/sim/t" + std::to_string(ti) + "_" + std::to_string(l) + ".asm";
         int nl2 = (int)r.range(1, 10);
         for (int q = 0; q < nl2; q++) f.data += any_instr(r) + "\n";
-        p.world.files.push_back(f);
+        if (shared_file) {
+          // a read-only source that every caller assembles: reading is sharing nothing
+          f.path = "/sim/shared.asm";
+          bool have = false;
+          for (const FileSpec &x : p.world.files)
+            if (x.path == f.path) have = true;
+          if (!have) p.world.files.push_back(f);
+        } else
+          p.world.files.push_back(f);
         Op so = mk(OP_OFFSET, 0);
         so.k = 0;
         t.ops.push_back(so);
@@ -388,9 +397,15 @@ void gen_c20(Plan &p, Rng &r, bool thorough) {
     }
     bool fin = r.chance(3, 4);
     std::string text;
+    // the parser accepts LF, CR LF and a lone CR as line ends; asmline reads stdin up to LF, so CR-separated lines reach
+    // the library in one call
+    const int sepk = r.chance(1, 12) ? 1 + (int)r.below(3) : 0;  // 0 LF, 1 CR LF, 2 CR, 3 mixed
     for (size_t q = 0; q < prog.size(); q++) {
       text += prog[q];
-      if (q + 1 < prog.size() || fin) text.push_back('\n');
+      if (q + 1 < prog.size() || fin) {
+        int k = sepk == 3 ? (int)r.below(3) : sepk;
+        text += k == 0 ? "\n" : k == 1 ? "\r\n" : "\r";
+      }
     }
     o.input = text;
     o.from_stdin = r.coin();
